@@ -168,7 +168,7 @@ CLAIMS = {
         "tag_index_range_bounds, time/author/author_kind_index_scan): the model's range scans are what a bytewise-ordered table returns between the bounds the *_iter functions "
         "build over the keys key_*_index builds (prefix, big-endian u64::MAX - created_at, id; both bounds inclusive, all-zero and all-ones ids included). Correspondence: ~40 "
         "filters after every step of every history on the real store vs the model (exact answer) and vs ValidAnswer of the abstract specification; the keys the six index tables "
-        "really hold, read back from LMDB in its iteration order through a verif hook, equal the model's keys byte for byte after every step. THE TAG TABLES ROW BY ROW (tag_index_scan, author_tag_index_scan, kind_tag_index_scan, tag_rows_are_dumped_keys): a tag table holds one row per distinct (letter, 182-byte padded value) of each event; a range read over those rows with the bounds tc_iter / atc_iter / ktc_iter compute is exactly the model's scan (each event once, however many of its tags fall on the key), and the rows are the keys the hook dumps. keys_from_source / iter_bounds_from_source / scrape_gate_from_source: the six key builders, the two ends and inclusiveness of every range read, and the scraping allowance, translated from lmdb/mod.rs and lib.rs on every run, are the model's.",
+        "really hold, read back from LMDB in its iteration order through a verif hook, equal the model's keys byte for byte after every step. THE TAG TABLES ROW BY ROW (tag_index_scan, author_tag_index_scan, kind_tag_index_scan, tag_rows_are_dumped_keys): a tag table holds one row per distinct (letter, 182-byte padded value) of each event; a range read over those rows with the bounds tc_iter / atc_iter / ktc_iter compute is exactly the model's scan (each event once, however many of its tags fall on the key), and the rows are the keys the hook dumps. keys_from_source / iter_bounds_from_source / scrape_gate_from_source: the six key builders, the two ends and inclusiveness of every range read, and the scraping allowance, translated from lmdb/mod.rs and lib.rs on every run, are the model's. Spanning queries (shared with C14): a query paused in its screening callback while two stores commit answers from ONE committed state, for every multi-range plan incl. the (author, replaceable kind) pairs of the authors+kinds plan.",
    note=PROOF_NOTE + 'Modelled, not verified: LMDB (ordered maps, snapshot reads inside a write transaction, atomic commit), the mmap-append event map; the seven index tables are modelled as functions of the set of indexed events with range scans as filter+key-order sort. ' + "Filters with multi-byte tag names (constructible only with from_parts) are outside the completeness theorems (the tag plans probe by first byte only) and are covered by the correspondence. Of LMDB's ordering only 'a range is iterated in bytewise key order' is assumed (and observed on every step); the list-level scan equality is proved for the time, author and author-kind tables, the range/order facts at key level for the three tag tables.",
    technique="Lean 4 proof (loop invariant over all seven query plans) + differential correspondence + ValidAnswer oracle from the abstract specification",
    design="6/C05"),
